@@ -111,8 +111,38 @@ def _object_walk(spec):
     return bo.walk_object(spec)
 
 
-def run_walks(rep, prop, ujobs, ospecs, scratch):
+def insitu_configs(seed, tier):
+    """Sampler runs whose bound construction is traced (two unions per NautilusBound)."""
+    s = seed
+    c = [dict(kind='two', n_live=60, n_batch=10, n_points_min=6, seed=91 + s, mseed=s, split_threshold=1,
+              runkw=dict(n_eff=80, discard_exploration=False)),
+         dict(kind='ring', n_live=60, n_batch=10, n_points_min=5, seed=92 + s, mseed=s, split_threshold=1,
+              runkw=dict(n_eff=80, discard_exploration=False)),
+         dict(kind='wrap', n_live=50, n_batch=10, n_points_min=5, seed=93 + s, mseed=s, periodic=[0], split_threshold=2,
+              runkw=dict(n_eff=60, discard_exploration=True)),
+         dict(kind='funnel', n_dim=3, n_live=80, n_batch=10, n_points_min=6, seed=94 + s, mseed=s, split_threshold=1,
+              runkw=dict(n_eff=60, discard_exploration=True)),
+         dict(kind='plateau', n_live=50, n_batch=10, n_points_min=5, seed=95 + s, mseed=s, split_threshold=5, n_networks=1,
+              runkw=dict(n_eff=60, discard_exploration=True))]
+    if tier == 'thorough':
+        for r in range(1, 5):
+            c += [dict(kind=k, n_dim=d, n_live=40 + 20 * r, n_batch=10, n_points_min=d + 3, seed=100 * r + s + i, mseed=s + r,
+                       split_threshold=[1, 3, 10][(r + i) % 3], runkw=dict(n_eff=80, discard_exploration=bool(i % 2)))
+                  for i, (k, d) in enumerate([('two', 2), ('ring', 2), ('gauss', 4), ('funnel', 3), ('two', 3)])]
+    return c
+
+
+def _insitu(cfg):
+    from . import union_tracer
+    r = union_tracer.sampler_union_log(cfg)
+    r['job'] = dict(r['job'], npm=cfg['n_points_min'], cls='in-situ unions of a sampler run')
+    return r
+
+
+def run_walks(rep, prop, ujobs, ospecs, scratch, insitu=()):
     results = []
+    if insitu:
+        results += [('object', r) for r in common.pmap(_insitu, list(insitu))]
     if ujobs:
         results += [('union', r) for r in common.pmap(_union_walk_and_validate, ujobs)]
     if ospecs:
@@ -120,7 +150,7 @@ def run_walks(rep, prop, ujobs, ospecs, scratch):
 
     def val(item):
         i, (kind, r) = item
-        npm = r['job'][6] if kind == 'union' else (r['job'].get('npm', r['job']['n_dim'] + 3))
+        npm = r['job'][6] if kind == 'union' else (r['job']['npm'] if 'npm' in r['job'] else r['job']['n_dim'] + 3)
         try:
             fails, res = bo.validate(r['log'], scratch, '%s%d' % (kind, i), npm)
             return kind, r, fails, res, None
@@ -137,7 +167,7 @@ def run_walks(rep, prop, ujobs, ospecs, scratch):
         rep.coverage['states'] += res.states
         job = r['job']
         jkey = ('union:%s,%dD,%s,unit=%s' % (job[0], job[1], job[4], job[5])) if kind == 'union' else \
-            ('%s:%s,%dD,nn=%s,periodic=%s,pool=%s' % (job['cls'], job['kind'], job['n_dim'], job.get('n_networks'),
+            ('%s:%s,%sD,nn=%s,periodic=%s,pool=%s' % (job['cls'], job['kind'], job.get('n_dim', 2), job.get('n_networks'),
                                                     job.get('periodic'), job.get('pool')))
         mine = [(st, [n for n in ns if prop in BTAGS.get(n, set())], node) for st, ns, node in fails
                 if any(prop in BTAGS.get(n, set()) for n in ns)]
@@ -166,7 +196,7 @@ def check_c13(prop, tier, seed):
     try:
         model_check_bounds(rep, tier, scratch)
         depth = 4 if tier == 'quick' else 5
-        run_walks(rep, prop, union_jobs(seed, tier, depth), [], scratch)
+        run_walks(rep, prop, union_jobs(seed, tier, depth), [], scratch, insitu=insitu_configs(seed, tier))
         rep.coverage['exhaustive_over'] = 'all operation sequences over %s up to length %d per point set' % (bo.OPS, depth)
         rep.assumptions += ['point sets are sampled from seeded families; operation sequences are enumerated exhaustively']
     finally:
